@@ -450,7 +450,7 @@ class TreeGen:
     def leaf(self):
         from hypothesis import strategies as st
 
-        names = ["LeafA", "LeafA", "LeafB", "SubLeafA", "Strs", "Vals", "TagA", "SlotLeaf"]
+        names = ["LeafA", "LeafA", "LeafB", "SubLeafA", "SubSubLeafA", "Strs", "Vals", "TagA", "SlotLeaf"]
         if self.falsy:
             names.append("Falsy")
         if self.servals:
